@@ -1,9 +1,51 @@
-import LSProofs.Wf
-/-! # C02 — placeholder while the refinement development is being written (see DESIGN 4.4) -/
+import LSProofs.StepSpec
+/-!
+# C02 — clone-on-write isolation: mutating one handle never changes another
+-/
 namespace LS.C02
 open LS
 
-theorem init_wf (st : List Bytes) (hst : ∀ t ∈ st, Valid t ∧ t.length ≤ STATIC_MAX_LEN) :
-    Wf { statics := st } := wf_init st hst
+/-- **frame**: whatever the operation (successful, failing with `ReserveError`, panicking on an
+index, on allocation or in a callback) and whatever the allocator does, every handle other than
+the operation's target keeps its two words (same pointer, same length) and reads the same bytes -/
+theorem step_frame (rf : Refuse) (w : World) (hw : Wf w) (op : Op) (hv : op.ArgsValid) (h' : Nat)
+    (hne : h' ≠ op.target) :
+    (step rf w op).1.get h' = w.get h' ∧ (step rf w op).1.text h' = w.text h' :=
+  (step_post rf hw op hv).2.2 h' hne
+
+/-- along a history: a handle that is never the target reads the same text at the end -/
+theorem run_frame (rf : Refuse) (ops : List Op) : ∀ (w : World), Wf w → (∀ op ∈ ops, op.ArgsValid) →
+    ∀ h', (∀ op ∈ ops, h' ≠ op.target) → (run rf w ops).get h' = w.get h' ∧ (run rf w ops).text h' = w.text h' := by
+  induction ops with
+  | nil => intro w _ _ h' _; exact ⟨rfl, rfl⟩
+  | cons op ops ih =>
+    intro w hw hv h' hn
+    have hp := step_post rf hw op (hv op (List.mem_cons_self ..))
+    have h1 := hp.2.2 h' (hn op (List.mem_cons_self ..))
+    have h2 := ih _ hp.1 (fun o ho => hv o (List.mem_cons_of_mem _ ho)) h' (fun o ho => hn o (List.mem_cons_of_mem _ ho))
+    exact ⟨h2.1.trans h1.1, h2.2.trans h1.2⟩
+
+/-- the bytes a *sharing* handle points at are the same bytes: its block keeps capacity and data
+(only the count may change) -/
+theorem shared_block_untouched (rf : Refuse) (w : World) (hw : Wf w) (op : Op) (hv : op.ArgsValid)
+    (h' a l : Nat) (hne : h' ≠ op.target) (hg : w.get h' = some (.heap a l)) :
+    ∃ b b', w.heap.get? a = some b ∧ (step rf w op).1.heap.get? a = some b' ∧ l ≤ b'.cap ∧
+      b'.data.take l = b.data.take l := by
+  obtain ⟨b, hb, hl, _⟩ := hw.handles h' _ hg
+  have hp := step_post rf hw op hv
+  have hg' := (hp.2.2 h' hne).1
+  rw [hg] at hg'
+  obtain ⟨b', hb', hl', _⟩ := hp.1.handles h' _ hg'
+  have ht := (hp.2.2 h' hne).2
+  simp only [World.text, hg, hg', textOf, hb, hb', hl, hl', if_true] at ht
+  injection ht with ht
+  exact ⟨b, b', hb, hb', hl', ht⟩
+
+-- non-vacuity: three handles on one block with lengths 18/3/18, one dropped, `insert` on the second
+example :
+    let w := run (fun _ _ => false) {} [.fromStr 0 [0x61,0x62,0x63,0x64,0x65,0x66,0x67,0x68,0x69,0x6a,0x6b,0x6c,0x6d,0x6e,0x6f,0x70,0x71,0x72] true,
+      .clone 1 0, .clone 2 0, .truncate 1 3 true, .drop 0, .insertStr 1 1 [0x5a] true]
+    w.text 2 = some [0x61,0x62,0x63,0x64,0x65,0x66,0x67,0x68,0x69,0x6a,0x6b,0x6c,0x6d,0x6e,0x6f,0x70,0x71,0x72] ∧
+    w.text 1 = some [0x61,0x5a,0x62,0x63] := by decide
 
 end LS.C02
